@@ -112,6 +112,7 @@ def run_ns(stage, uid, user=None):
              f'mkdir -p /etc/containers/systemd /run/containers/systemd /usr/share/containers/systemd && '
              f'mount --bind {stage}/adm /etc/containers/systemd && mount --bind {stage}/run /run/containers/systemd && '
              f'mount --bind {stage}/distro /usr/share/containers/systemd && '
+             + (f'mkdir -p /etc/qv-users && mount --bind {stage}/usersreal /etc/qv-users && ' if os.path.isdir(os.path.join(stage, 'usersreal')) else '') +
              f'env -u QUADLET_UNIT_DIRS HOME={stage}/home XDG_CONFIG_HOME={stage}/home/.config XDG_RUNTIME_DIR={stage}/xdgrun '
              + (f'setpriv --reuid={uid} --regid={uid} --clear-groups ' if uid != 0 else '')
              + f'{stage}/quadlet-rs ' + ('--user ' if user else '') + f'--dry-run --no-kmsg-log {out}')
@@ -156,6 +157,13 @@ def oracle(ctx):
             put('run', d, 'run')
             put('home/.config/containers/systemd', d, 'xdg')
             put('xdgrun/containers/systemd', d, 'xdgrun')
+        if rnd.random() < 0.35 and os.path.isdir(os.path.join(stage, 'adm', 'users')):
+            # users/ itself is a symbolic link to a directory at another depth (deeper or shallower than the link)
+            deep = rnd.choice(['x/y/z', ''])
+            os.makedirs(os.path.join(stage, 'usersreal', deep), exist_ok=True)
+            shutil.move(os.path.join(stage, 'adm', 'users'), os.path.join(stage, 'usersreal', deep, 'users'))
+            os.symlink(os.path.join('/etc/qv-users', deep, 'users'), os.path.join(stage, 'adm', 'users'))
+            tree = tree + ['<users is a symlink to /etc/qv-users/' + deep + '/users>']
         subprocess.run(['chmod', '-R', 'a+rX', stage])
         cases.append((stage, tree, marks))
 
